@@ -2,7 +2,7 @@
 # seed_matrix.sh [regex]: run every kept seeded change (whose directory name matches the regex) against the check of the property it targets,
 # record the outcome in its meta.json (caught_by) and print one line per change.
 cd /verif
-for d in $(ls seeded | sort | grep -E "${1:-.}"); do
+for d in $(ls seeded | sort | grep -E -e "${1:-.}"); do
   line=$(tools/run_seeded.sh $d 2>&1 | tail -1)
   rc=$(echo "$line" | sed -n 's/.* rc=\([0-9]*\) .*/\1/p')
   nf=$(echo "$line" | grep -c "no-failing-input-found")
